@@ -6,7 +6,7 @@ From TK Require Import Dijkstra_Model Dijkstra_Spec Dijkstra_IsoModel Dijkstra_I
      Dijkstra_Proof_Base Dijkstra_Proof_Spec Dijkstra_Proof Dijkstra_Proof_Iso Dijkstra_Proof_IsoExec
      Dijkstra_Proof_Sched Dijkstra_IsoEmbed Dijkstra_IsoSelect Dijkstra_IsoOptimal Dijkstra_FibC_Model
      Dijkstra_Proof_FibC Dijkstra_Scale Dijkstra_IsoFrobenius Dijkstra_PQC_Model Dijkstra_Proof_PQC
-     Dijkstra_Proof_PQC_Heap Dijkstra_Proof_PQC_Sched.
+     Dijkstra_Proof_PQC_Heap Dijkstra_Proof_PQC_Sched Dijkstra_IsoPipe_Model Dijkstra_Proof_IsoPipe.
 From TK Require Mds_Proof_Optimal Mds_Proof_OptimalClamped.
 From Coq Require Import Permutation.
 Import ListNotations.
@@ -249,6 +249,30 @@ Theorem isomap_shipped_ok_if_symmetric : forall n (G : mat Qc), n <> 0%nat ->
     msym n G -> meq n n (iso_shipped n G) (mds_ref n G).
 Proof. exact iso_shipped_ok_if_symmetric_Qc. Qed.
 Print Assumptions isomap_shipped_ok_if_symmetric.
+
+(* ---- embed() END TO END up to the eigensolver call (wave 4): geodesic routine (both queues concrete) composed with
+   the squaring / averaging / centring statements = classical MDS of the shortest-path lengths of the neighbourhood
+   graph, for EVERY well-formed graph (complete or not) and EVERY non-negative weight function (no triangle
+   inequality, no symmetry) ---- *)
+Theorem isomap_pipeline_is_mds_of_shortest_paths : forall nbrs w N K,
+    wf_graph nbrs N K -> nonneg_w nbrs w -> (0 < N)%nat ->
+    embed_handed_pqc nbrs w N = mds_of_shortest_paths nbrs w N /\
+    embed_handed_fibc nbrs w N = mds_of_shortest_paths nbrs w N.
+Proof. exact embed_handed_is_mds_of_shortest_paths. Qed.
+Print Assumptions isomap_pipeline_is_mds_of_shortest_paths.
+
+(* the fast path "k = N-1: the graph is complete, so the geodesics are the direct distances" (NOT in the shipped code;
+   the kind of change the correspondence run must catch) is refuted by a symmetric, zero-diagonal, positive but
+   non-metric table (squared distances of three points on a line), on which the shipped pipeline is right *)
+Theorem isomap_complete_graph_shortcut_refuted :
+  exists nbrs t N,
+    wf_graph nbrs N (N - 1) /\ nonneg_w nbrs (table_w t) /\
+    (forall u v, (u < N)%nat -> (v < N)%nat -> table_w t u v = table_w t v u) /\
+    (forall u, (u < N)%nat -> table_w t u u = 0) /\
+    embed_handed_shortcut nbrs (table_w t) N <> mds_of_shortest_paths nbrs (table_w t) N /\
+    embed_handed_pqc nbrs (table_w t) N = mds_of_shortest_paths nbrs (table_w t) N.
+Proof. exact embed_complete_graph_shortcut_refuted. Qed.
+Print Assumptions isomap_complete_graph_shortcut_refuted.
 
 (* the memoised list-level functions that the correspondence run extracts and executes are the tables of
    the functions above; the extracted decision procedure is sound and complete *)
@@ -522,3 +546,8 @@ Example schedule_pq_concrete_hypotheses_satisfiable :
                       [mkT [true; true; false] [false; true; true] []; mkT [true; true; true] [true; true; true] []]
     = DOk (sp_matrix f4_nbrs f4_w 3).
 Proof. exact schedule_pqc_example. Qed.
+
+Example isomap_pipeline_hypotheses_satisfiable :
+  wf_graph line3_nbrs 3 2 /\ nonneg_w line3_nbrs (table_w line3_sq) /\ (0 < 3)%nat /\
+  exists B, embed_handed_pqc line3_nbrs (table_w line3_sq) 3 = Handed B.
+Proof. exact pipeline_hypotheses_satisfiable. Qed.
